@@ -191,7 +191,33 @@ def gen_flow(tier, log):
     return out
 
 
-GENERATORS = {"dechunk": gen_dechunk, "flow": gen_flow}
+def gen_redirect(tier, log):
+    cfg = os.path.join(SPEC, "MCRedirect_edges_%s.cfg" % tier)
+    key = spec_hash("redirect-" + tier + open(cfg).read(), ["MCRedirect", "Redirect"])
+    os.makedirs(GEN, exist_ok=True)
+    out = os.path.join(GEN, "redirect-%s-%s.ndjson" % (tier, key))
+    if os.path.exists(out):
+        return out
+    t0 = time.time()
+    dump = out + ".dump"
+    run_tlc_dump("MCRedirect", cfg, dump)
+    _table, edges = load_dump(dump)
+    os.remove(dump)
+    edges, paths, ncov = edge_cover(edges, maxlen=4)
+    tmp = out + ".tmp"
+    with open(tmp, "w") as f:
+        for p in paths:
+            e0 = edges[p[0]]
+            f.write(json.dumps({"kind": "redirect", "coding": e0["cod"], "ops": [edges[j]["op"] for j in p]}) + "\n")
+    os.rename(tmp, out)
+    for old in os.listdir(GEN):
+        if old.startswith("redirect-%s-" % tier) and os.path.join(GEN, old) != out:
+            os.remove(os.path.join(GEN, old))
+    log("gen: redirect/%s: %d model edges covered by %d scripts (%.1fs)" % (tier, ncov, len(paths), time.time() - t0))
+    return out
+
+
+GENERATORS = {"dechunk": gen_dechunk, "flow": gen_flow, "redirect": gen_redirect}
 
 
 def ensure(name, tier, log):
